@@ -13,7 +13,7 @@ and, after every action, on every configured port:
     a failing start raises OSError and leaves is_running and the listening set as before the call;
     stop never raises; a body exception propagates and the bridge is stopped.
 A breadth-first search over (model state, bridge object fingerprint) runs to a fixpoint.
-Twin bridges: two bridges in one process (each on its own port), all sequences of their starts and stops to
+Twin bridges: two bridges in one process (each on its own port, and - second family - both on the same port), all sequences of their starts and stops to
 depth 4 (6): one bridge's start/stop never changes the other's flag, port or deliveries.
 In-flight datagrams: one user task starts the bridge, sends 1..3 broadcasts, lets k = 0..8 (thorough 16)
 loop cycles pass and stops (or leaves the context); the deliveries made by the time stop returned are
@@ -366,6 +366,68 @@ def inflight(res, nports, k, how, ndg):
             bw.close()
 
 
+def twin_shared(res, actions):
+    """Two bridges configured with the SAME port: only one can listen at a time; a failing start or a stop of the
+    one that is not listening never disturbs the one that is."""
+    set_zone("UTC")
+    case = {"part": "twin-shared", "actions": actions}
+    port = port_block().ports[0]
+    with Clock(1_700_000_000.0), Capture():
+        a = BridgeWorld(1, ports=[port])
+        b = BridgeWorld(1, loop=a.loop, ports=[port])
+        bw = {"A": a, "B": b}
+        owner = None  # which bridge listens
+        nprobe = 0
+        try:
+            for n, act in enumerate(actions):
+                who, what = act[-1], act[:-1]
+                w = bw[who]
+                tag = f"after action #{n} {act} of {actions}"
+                out = w.run(w.bridge.start() if what == "start" else w.bridge.stop())
+                if what == "start":
+                    if owner is None:
+                        if out[0] != "ok":
+                            res.violation("start-fails", case, f"{tag}: {out[0]} {out[1]!r}")
+                            return
+                        owner = who
+                    else:
+                        if out[0] != "exc" or not isinstance(out[1], OSError):
+                            res.violation("failing-start-does-not-raise", case, f"{tag}: the port is taken by bridge {owner}: {out[0]} {out[1]!r}")
+                            return
+                        if owner == who and w.bridge.is_running is False:
+                            owner = None  # start on the running bridge itself: "nothing left listening" is the other accepted reading
+                else:
+                    if out[0] != "ok":
+                        res.violation("stop-raises", case, f"{tag}: {out[0]} {out[1]!r}")
+                        return
+                    if owner == who:
+                        owner = None
+                a.settle()
+                for name in ("A", "B"):
+                    if bw[name].bridge.is_running is not (owner == name):
+                        res.violation("twin:is-running", case, f"{tag}: bridge {name} is_running={bw[name].bridge.is_running}, the port is held by {owner}")
+                        return
+                if can_bind(port) != (owner is None):
+                    res.violation("twin:port", case, f"{tag}: the shared port is {'free' if can_bind(port) else 'bound'}, holder per model: {owner}")
+                    return
+                nprobe += 1
+                na, nb = len(a.calls), len(b.calls)
+                a.send(port, B.encode("V4", name="s%d" % nprobe))
+                a.settle()
+                got = {"A": len(a.calls) - na, "B": len(b.calls) - nb}
+                want = {"A": 1 if owner == "A" else 0, "B": 1 if owner == "B" else 0}
+                if got != want:
+                    res.violation("twin:delivery", case, f"{tag}: broadcast on the shared port (held by {owner}) -> callbacks {got}, expected {want}")
+                    return
+        finally:
+            for x in (a, b):
+                try:
+                    x.run(x.bridge.stop())
+                except Exception:  # noqa: BLE001
+                    pass
+            a.loop.finish()
+
+
 def twin(res, actions):
     """Two bridges in one process and one loop, each on its own port: what one does must not touch the other."""
     set_zone("UTC")
@@ -459,8 +521,10 @@ def run_job(job):
         for n in range(1, job["depth"] + 1):
             for seq in itertools.product(acts, repeat=n):
                 twin(res, list(seq))
-                res.traces += 1
+                twin_shared(res, list(seq))
+                res.traces += 2
                 res.case(("twin", seq))
+                res.case(("twin-shared", seq))
         res.sample({"part": "twin", "actions": ["startA", "startB", "stopA"], "expect": "B keeps delivering, A's port is free"})
         return res
     if job["part"] == "inflight":
@@ -499,6 +563,9 @@ def replay(case):
     res = Res()
     if case.get("part") == "twin":
         twin(res, case["actions"])
+        return res.violations
+    if case.get("part") == "twin-shared":
+        twin_shared(res, case["actions"])
         return res.violations
     if case.get("part") == "inflight":
         inflight(res, case["nports"], case["k"], case["how"], case["ndg"])
